@@ -198,10 +198,11 @@ where
     let mut m2 = MaskedStorage::<T>::new(Default::default());
     fill::<T>(&mut m1, ids, order, &r);
     fill::<T>(&mut m2, ids, order, &r);
-    let (ent, st) = any_entities(ids);
+    // all entities alive: determinism of the storage does not depend on the allocator state
+    let (ent, es) = all_alive(ids);
     let env = Env::new(ent);
-    let (h, _live) = any_handle(ids, &st, t);
-    let cur = current_handles(ids, &st);
+    let h = es[t];
+    let cur = [Some(es[0]), Some(es[1]), Some(es[2])];
     let mut s1: St<'_, T> = Storage::new(env.fetch(), &mut m1);
     let mut s2: St<'_, T> = Storage::new(env.fetch(), &mut m2);
     let (r1, r2) = (apply::<T>(&mut s1, r.op, h, r.x), apply::<T>(&mut s2, r.op, h, r.x));
@@ -228,9 +229,9 @@ pub fn det_events(ids: [Index; NI], order: [usize; NI], t: usize) {
     let mut m2 = MaskedStorage::<T>::new(Default::default());
     fill::<T>(&mut m1, ids, order, &r);
     fill::<T>(&mut m2, ids, order, &r);
-    let (ent, st) = any_entities(ids);
+    let (ent, es) = all_alive(ids);
     let env = Env::new(ent);
-    let (h, _live) = any_handle(ids, &st, t);
+    let h = es[t];
     let mut s1: St<'_, T> = Storage::new(env.fetch(), &mut m1);
     let mut s2: St<'_, T> = Storage::new(env.fetch(), &mut m2);
     let (mut rd1, mut rd2) = (s1.register_reader(), s2.register_reader());
